@@ -96,11 +96,14 @@ REEVAL_SUFFIX = "semantics-depend-on-the-map-built-so-far"
 # of the symbolic expression (x86 Jcc after OR: `sf != bit0` becomes `~sf`, the C01 defect).  The sets of mnemonics and classes met keep growing with the seeds, so the
 # default is one signature per ISA; the mnemonic that computed the differing value is in the case ("culprit").
 #   "global": C02:<suffix>     "isa": C02:<isa>:<suffix>     "isa+class": C02:<isa>:<class>:<suffix>
+#   "isa+mnemonic": C02:<isa>:<culprit mnemonic>:<suffix>
 #   "isa+mnemonic+class": C02:<isa>:<culprit mnemonic>:<class>:<suffix>
 # The signedness flag lives in cas/expressions.py, whatever the ISA (like the store-lost defect lives in the
-# mapper): one global signature.  The re-evaluation pattern lives in each ISA's asm.py: one per ISA.
+# mapper): one global signature.  The re-evaluation pattern lives in the individual i_MNEMONIC functions of each
+# ISA's asm.py: one signature per ISA and mnemonic, so that a further function with that behaviour is reported
+# (the dependency-dense phase below reaches every mnemonic, which keeps the list stable across seeds).
 FAMILY_SCOPE = {"signedness-flag-carried-between-steps": "global",
-                "semantics-depend-on-the-map-built-so-far": "isa"}
+                "semantics-depend-on-the-map-built-so-far": "isa+mnemonic"}
 ARMV7_PC_SIG = "C02:armv7:<write to pc>:interworking-decided-only-when-pc-is-constant"
 
 
@@ -112,6 +115,8 @@ def family_signature(isa_name, mnemonic, cls, suffix):
         return "C02:%s:%s" % (isa_name, suffix)
     if scope == "isa+class":
         return "C02:%s:%s:%s" % (isa_name, cls, suffix)
+    if scope == "isa+mnemonic":
+        return "C02:%s:%s:%s" % (isa_name, mnemonic, suffix)
     return "C02:%s:%s:%s:%s" % (isa_name, mnemonic, cls, suffix)
 
 
@@ -201,6 +206,8 @@ class Ctx(object):
         self.pools = {}
         self.usable = {}
         self.selfw = {}
+        self.wtab = {}
+        self.wouts = {}
         self.dropped = {}
         self.sigs = []          # shrunk failures already seen: (mnemonics tuple, class, failing settings)
         self.mnems = set()
@@ -363,6 +370,139 @@ class Ctx(object):
                 out.pop(o, None)        # written by (almost) every instruction: a second program counter (mips/sparc npc)
         self.selfw[mode] = out
         return out
+
+    def writer_tables(self, mode, r, n):
+        """from n samples of the data-processing specs of the ISA:
+             copies[a]  = [(b, bytes)]  instructions whose only effect (besides pc/flags) is a := value mentioning
+                                        exactly one other register b (mov a,b / mov al,bl / or a,b,zero …)
+             writers[b] = [bytes]       instructions that overwrite b without reading it from a register it
+                                        also writes (mov b,imm / xor b,b / mov b,c / add b,c,d …)"""
+        if mode in self.wtab:
+            return self.wtab[mode]
+        cats, _ = self.pools[mode]
+        pool = cats["dp"] * 4 + cats["other"]
+        copies, writers = {}, {}
+        copyspecs, wrspecs = [], []
+        special = set(x.ref for x in self.regs if x.etype & (regtype.PC | regtype.FLAGS))
+        samples = []
+        for t in range(n if pool else 0):
+            # first half: any data-processing spec; second half: the specs that turned out to copy / overwrite
+            if t == n // 2:
+                # registers written by (almost) every instruction are a second program counter / status word
+                cnt = {}
+                for _, gx in samples:
+                    for o in self.map_outputs(gx[2]):
+                        cnt[o] = cnt.get(o, 0) + 1
+                special |= set(o for o, k in cnt.items() if k > 0.6 * len(samples))
+                for sp, gx in samples:
+                    self._classify_writer(sp, gx, special, copies, writers, copyspecs, wrspecs)
+            if t < n // 2 or not (copyspecs or wrspecs):
+                sp = r.choice(pool)
+            else:
+                sp = r.choice(copyspecs * 2 + wrspecs) if copyspecs else r.choice(wrspecs)
+            gx = self.sample_spec(mode, sp, r)
+            if gx is None:
+                continue
+            if t < n // 2:
+                samples.append((sp, gx))
+            else:
+                self._classify_writer(None, gx, special, copies, writers, copyspecs, wrspecs)
+        self.wtab[mode] = (copies, writers)
+        return self.wtab[mode]
+
+    def _classify_writer(self, sp, gx, special, copies, writers, copyspecs, wrspecs):
+        m = gx[2]
+        try:
+            if len(m.mmap._zones) > 1 or m.mmap._zones[None]._map:
+                return
+            outs = [(loc, v) for loc, v in m if loc._is_reg and loc.ref is not None and loc.ref not in special]
+            written = set(loc.ref for loc, _ in outs)
+            for loc, v in outs:
+                locs = locations_of(v)
+                if any(x._is_mem or x._is_ptr for x in locs):
+                    continue
+                srcs = set(x.ref for x in locs if x._is_reg and x.ref is not None and x.ref not in special)
+                others = srcs - {loc.ref}
+                if len(others) == 1 and not (others & written):
+                    if sp is not None and sp not in copyspecs:
+                        copyspecs.append(sp)
+                    if len(copies.get(loc.ref, ())) < 8:
+                        copies.setdefault(loc.ref, []).append((list(others)[0], gx[0]))
+                if loc.ref not in srcs:
+                    if sp is not None and sp not in wrspecs:
+                        wrspecs.append(sp)
+                    if len(writers.get(loc.ref, ())) < 8:
+                        writers.setdefault(loc.ref, []).append(gx[0])
+        except Exception:
+            pass
+
+    def operand_registers(self, my):
+        """the registers an instruction's map reads, without pc and flags, sorted"""
+        special = set(x.ref for x in self.regs if x.etype & (regtype.PC | regtype.FLAGS))
+        return sorted(x for x in self.map_inputs(my) if x is not None and x not in special)
+
+    def gen_dep(self, mode, s, r, k, ntab=600, maxops=4):
+        """a dependency-dense sequence ending with a sample Y of spec s: for every operand register a that Y
+        reads (up to maxops, starting with the k-th),  X1: a := (value of) b  — so that Y's operand mentions the
+        *input* b —  and then  X2: b := something else — so that b means two things in the block —, then Y.
+        Semantics that push an operand through the map twice, or evaluate it in the wrong map, substitute the
+        new b into Y's operand.  An operand register without a copy instruction gets a self-writer
+        (a := a + 4 …) instead.  returns (sequence, operand registers covered, how) or None"""
+        copies, writers = self.writer_tables(mode, r, ntab)
+        for _ in range(6):
+            got = self.sample_spec(mode, s, r)
+            if got is None:
+                continue
+            ybs, _, my = got
+            ops = self.operand_registers(my)
+            if not ops:
+                return None
+            ops = (ops[k % len(ops):] + ops[:k % len(ops)])[:maxops]
+            first, second, covered, used, how = [], [], [], set(ops), set()
+            sw = None
+            for a in ops:
+                cands = [(b, bs) for (b, bs) in copies.get(a, ()) if b in writers and b not in used]
+                r.shuffle(cands)
+                done = False
+                for b, x1 in cands:
+                    # the overwrite of b must leave the operand registers alone
+                    ws = [w for w in writers[b] if self._writes_only(mode, w, b, used)]
+                    if ws:
+                        first.append(x1)
+                        second.append(r.choice(ws))
+                        used.add(b)
+                        covered.append(a)
+                        how.add("copy-then-clobber")
+                        done = True
+                        break
+                if not done:
+                    if sw is None:
+                        sw = self.self_writers(mode, r, 300)
+                    if a in sw:
+                        second.append(r.choice(sw[a]))
+                        covered.append(a)
+                        how.add("self-writer")
+            if covered:
+                return first + second + [ybs], covered, "+".join(sorted(how))
+        return None
+
+    def _writes_only(self, mode, bs, b, keep):
+        """the instruction bs writes b and none of the registers in `keep` (pc / flags aside)"""
+        key = (mode, bs)
+        if key not in self.wouts:
+            try:
+                self.restore(mode)
+                i = self.I.dis(bs)
+                i.address = cst(BASE_ADDR, self.pcsize)
+                m = mapper()
+                i(m)
+                self.wouts[key] = self.map_outputs(m)
+            except Exception:
+                self.wouts[key] = None
+            finally:
+                self.restore(mode)
+        outs = self.wouts[key]
+        return outs is not None and not (outs & (keep - {b}))
 
     def gen_pair(self, mode, s, r, nwriters=300):
         """[X, Y]: Y a fresh sample of spec s, X an instruction that writes a register Y reads, if possible
@@ -1288,6 +1428,48 @@ def _run_isa(ck, ctx, st, stats, r, quick, start, slice_s, slice_end, alarm, cas
         return True
 
     nseq = 0
+    # phase 1c: dependency-dense sequences.  Every mnemonic with semantics is the LAST instruction of a sequence
+    # whose first instructions copy a register b into one of its operand registers a and then overwrite b
+    # (Ctx.gen_dep), so that b means two things in the block: semantics that push an operand through the map
+    # twice (`src = fmap(op); … fmap(f(src))`), or evaluate it in the wrong map, only go wrong on such blocks.
+    # One sequence treats all operand registers of its last instruction (up to 4) at once.  thorough: every
+    # spec, three rounds; quick: one spec per mnemonic in a seeded order, one state and one setting per
+    # sequence, a second round if the slice allows.  This phase runs first: it has the first claim on the budget.
+    dep_todo = []
+    for mode in ctx.modes:
+        bym = {}
+        for mnem, _, sp in ctx.usable.get(mode, []):
+            bym.setdefault(mnem, []).append(sp)
+        for mnem in sorted(bym):
+            if quick:
+                dep_todo.append((mode, mnem, bym[mnem]))
+            else:
+                dep_todo += [(mode, mnem, [sp]) for sp in bym[mnem]]
+    r.shuffle(dep_todo)
+    dep_last = set()
+    k0 = r.randrange(4)
+    for rnd in range(2 if quick else 3):
+        cut = False
+        for mode, mnem, sps in dep_todo:
+            if time.time() >= start + (0.45 if quick else 0.4) * slice_s:
+                ck.count("phase1c-cut(budget).%s.round%d" % (name, rnd))
+                cut = True
+                break
+            g = ctx.gen_dep(mode, r.choice(sps), r, k0 + 2 * rnd)
+            if g is None:
+                ck.count("phase1c-no-dependent-sequence")
+                continue
+            seq, a, how = g
+            nseq += 1
+            ck.count("phase1c.%s" % how)
+            if one_sequence(mode, seq, nseq, sids=[nseq % NSTATES] if quick else None):
+                dep_last.add((mode, mnem))
+        if cut:
+            break
+    st["phase1c_sequences"] = st["sequences"]
+    st["phase1c_mnemonics_last"] = len(dep_last)
+    st["phase1c_mnemonics_total"] = len(set((m, x) for m, x, _ in dep_todo))
+    ck.count("phase1c-mnemonics-as-last-instruction.%s" % name, len(dep_last))
     # phase 1: single instructions from all three states — every load/store spec, and one spec of every other
     # mnemonic (thorough: every spec) — so that the set of single-instruction findings does not depend on
     # the seed; capped in the quick tier
@@ -1307,7 +1489,7 @@ def _run_isa(ck, ctx, st, stats, r, quick, start, slice_s, slice_end, alarm, cas
             others = r.sample(others, 120)
         todo += [(mode, sp) for sp in specs + others]
     for mode, sp in todo:
-        if time.time() >= start + 0.35 * slice_s:
+        if time.time() >= start + 0.65 * slice_s:
             ck.count("phase1-cut(budget).%s" % name)
             break
         got = None
@@ -1319,7 +1501,7 @@ def _run_isa(ck, ctx, st, stats, r, quick, start, slice_s, slice_end, alarm, cas
             continue
         nseq += 1
         one_sequence(mode, [got[0]], nseq, sids=list(range(NSTATES)))
-    st["phase1_sequences"] = st["sequences"]
+    st["phase1_sequences"] = st["sequences"] - st["phase1c_sequences"]
     # phase 1b: for every mnemonic (quick: one spec per mnemonic, capped; thorough: every spec) a directed pair
     # [X, Y] where X writes a register that Y reads: finds, whatever the seed, the semantics that evaluate an
     # operand twice or otherwise depend on the symbolic map they are built on
@@ -1338,7 +1520,7 @@ def _run_isa(ck, ctx, st, stats, r, quick, start, slice_s, slice_end, alarm, cas
         else:
             todo += [(mode, sp) for _, _, sp in us]
     for mode, sp in todo:
-        if time.time() >= start + 0.7 * slice_s:
+        if time.time() >= start + 0.85 * slice_s:
             ck.count("phase1b-cut(budget).%s" % name)
             break
         bss = ctx.gen_pair(mode, sp, r)
@@ -1347,7 +1529,7 @@ def _run_isa(ck, ctx, st, stats, r, quick, start, slice_s, slice_end, alarm, cas
             continue
         nseq += 1
         one_sequence(mode, bss, nseq)
-    st["phase1b_sequences"] = st["sequences"] - st["phase1_sequences"]
+    st["phase1b_sequences"] = st["sequences"] - st["phase1_sequences"] - st["phase1c_sequences"]
     # phase 2: random sequences
     cap = nseq + (80 if quick else 10 ** 9)
     while nseq < cap and time.time() < slice_end:
